@@ -21,6 +21,7 @@ prudp.serve_transport_socket so that prudp.connect/serve, rmc.connect/serve, bac
 import asyncio, contextlib, heapq, random, types
 
 import anyio
+import anyio.lowlevel
 from anynet import scheduler as anynet_scheduler, util as anynet_util
 from nintendo.nex import prudp, common, kerberos
 
@@ -174,6 +175,7 @@ class FakeUDPSocket:
         self.yield_on_send = False
 
     async def send(self, data, addr):
+        await anyio.lowlevel.checkpoint_if_cancelled()      # a real socket's send is a cancellation point
         if self.yield_on_send:
             await anyio.sleep(0)
         self.net.transmit(self.addr, addr, data)
@@ -203,6 +205,7 @@ class FakeUDPClient:
         self.send_delay = 0            # > 0: the socket blocks this long in send (a congested socket)
 
     async def send(self, data):
+        await anyio.lowlevel.checkpoint_if_cancelled()      # a real socket's send is a cancellation point
         if self.send_delay:
             await anyio.sleep(self.send_delay)
         if self.yield_on_send:
@@ -237,6 +240,7 @@ class FakeStream:
         self.closed = False
 
     async def send(self, data):
+        await anyio.lowlevel.checkpoint_if_cancelled()      # a real socket's send is a cancellation point
         if self.closed or self.peer.closed:
             raise anyio.ClosedResourceError
         if getattr(self.peer, "never_reads", False):
